@@ -28,18 +28,10 @@ META = {
 NS = 'ace_time::'
 
 
-def roundtrip_rules(R, lib, ob):
-    """printTo and the for*String parsers are interpreted (E-SEQ, typed) on values built by the classes' own factories:
-    the abstraction boundary is the Print interface (print of a character / a number / a flash string, printPad2To, the
-    zone name of a TimeZone) on the output side and the C string on the input side (an array of character codes that
-    records which positions are read).  For a sample of the value domain - every offset of +-99:59 in the thorough tier -
-    the printed text must be the ISO-8601 form computed from the value's fields and parsing that text must give back equal
-    fields; the parser may not read at or beyond the length its wrapper tests; shorter strings give error values; error
-    values print their placeholder.  The code may spell the printing and the cursor handling any way it likes."""
-    from .aeval import AEval, AObj, CxxModule, Raised, Text, Ref, cxx_object
-    mod = CxxModule(lib, ['ace_time::'])
-    thorough = R.cfg.tier == 'thorough'
-
+def print_intrinsics():
+    """the Print interface as the interpreted library sees it: print of a character / a number / a string appends to the
+    `out` list of the abstract printer; printPad2To prints two characters; the zone name of a TimeZone is one token"""
+    from .aeval import Ref, Text
     def p_print(ev, recv, args, exprs):
         a, e = args[0], exprs[0]
         b = e
@@ -76,6 +68,23 @@ def roundtrip_rules(R, lib, ob):
             'strlen': lambda ev, recv, args: args[0].box.length() if isinstance(args[0], Ref) and isinstance(args[0].box, Text) else len(args[0]),
             'ace_time::DateStrings::dayOfWeekLongString': lambda ev, recv, args: 'Xxxday',
             'ace_time::DateStrings::dayOfWeekShortString': lambda ev, recv, args: 'Xxx'}
+
+    return intr
+
+
+def roundtrip_rules(R, lib, ob):
+    """printTo and the for*String parsers are interpreted (E-SEQ, typed) on values built by the classes' own factories:
+    the abstraction boundary is the Print interface (print of a character / a number / a flash string, printPad2To, the
+    zone name of a TimeZone) on the output side and the C string on the input side (an array of character codes that
+    records which positions are read).  For a sample of the value domain - every offset of +-99:59 in the thorough tier -
+    the printed text must be the ISO-8601 form computed from the value's fields and parsing that text must give back equal
+    fields; the parser may not read at or beyond the length its wrapper tests; shorter strings give error values; error
+    values print their placeholder.  The code may spell the printing and the cursor handling any way it likes."""
+    from .aeval import AEval, AObj, CxxModule, Raised, Text, Ref, cxx_object
+    mod = CxxModule(lib, ['ace_time::'])
+    thorough = R.cfg.tier == 'thorough'
+
+    intr = print_intrinsics()
 
     def ev():
         return AEval(module=mod, intrinsics=intr, typed=True, max_steps=200000)
